@@ -240,6 +240,12 @@ def isInt32Text (b : Bytes) : Bool :=
   !ds.isEmpty && ds.all (fun c => 48 ≤ c.toNat && c.toNat ≤ 57) && (ds.length == 1 || ds.head? != some 48) &&
     ds.length ≤ 10 && (if neg then digitsNat ds ≤ 2147483648 else digitsNat ds ≤ 2147483647)
 
+def isInt64Text (b : Bytes) : Bool :=
+  if b == [110, 117, 108, 108] then true else
+  let (neg, ds) := match b with | 45 :: r => (true, r) | r => (false, r)
+  !ds.isEmpty && ds.all (fun c => 48 ≤ c.toNat && c.toNat ≤ 57) && (ds.length == 1 || ds.head? != some 48) &&
+    ds.length ≤ 19 && (if neg then digitsNat ds ≤ 9223372036854775808 else digitsNat ds ≤ 9223372036854775807)
+
 def isUint32Text (b : Bytes) : Bool :=
   if b == [110, 117, 108, 108] then true else
   !b.isEmpty && b.all (fun c => 48 ≤ c.toNat && c.toNat ≤ 57) && (b.length == 1 || b.head? != some 48) &&
@@ -269,6 +275,7 @@ def convOf (bs : List DBinding) (fp : Nat) (text : Bytes) : Bool :=
   | some (_, _, "S") => true
   | some (_, _, "I") => isInt32Text text
   | some (_, _, "U") => isUint32Text text
+  | some (_, _, "L") => isInt64Text text
   | _ => false
 
 def showSRes : Trie.SRes → String
